@@ -21,8 +21,10 @@ def gen(rng, kind):
 
     def wspec(keys):
         r = rng.random()
-        if r < 0.4:
+        if r < 0.3:
             return ("scalar", rng.randint(1, 4) / 2)
+        if r < 0.5:
+            return ("unset", None)                # the field is left out: the documented default (weight 1 for every key)
         if r < 0.8:
             ks = list(keys); rng.shuffle(ks)          # written in any order: weights go with their key, not their position
             return ("dict", {k: rng.randint(0, 4) / 2 for k in ks})
@@ -81,18 +83,21 @@ def build(cfg):
 
     def W(spec):
         return {"scalar": spec[1], "dict": spec[1], "none": None}[spec[0]]
+    def WK(**fields):
+        """keyword arguments of the weight container: an unset field is left out"""
+        return {k: W(v) for k, v in fields.items() if v[0] != "unset"}
     obs = {k: (None if o is None else {"pinn_in": jnp.array(o["inputs"]), "val": (jnp.array(o["vals"]) if isinstance(o["vals"][0], list) else jnp.array(o["vals"])[:, None]), "eq_params": {}}) for k, o in cfg["obs"].items()}
     if all(v is None for v in obs.values()):
         obs = None
     if kind == "ode":
-        lw = jinns.loss.LossWeightsODEDict(dyn_loss=W(cfg["w"]["dyn_loss"]), initial_condition=W(cfg["w"]["initial_condition"]), observations=W(cfg["w"]["observations"]))
+        lw = jinns.loss.LossWeightsODEDict(**WK(dyn_loss=cfg["w"]["dyn_loss"], initial_condition=cfg["w"]["initial_condition"], observations=cfg["w"]["observations"]))
         ic = {k: (t0, jnp.array([u0])) for k, (t0, u0) in cfg["ic"].items()}
         L = jinns.loss.SystemLossODE(u_dict=us, dynamic_loss_dict=dl, loss_weights=lw, initial_condition_dict=ic, params_dict=PD, obs_slice_dict=osl)
         batch = ODEBatch(temporal_batch=jnp.array(cfg["pts"])[:, 0], obs_batch_dict=obs)
         singles = {k: jinns.loss.LossODE(u=us[k], dynamic_loss=None, initial_condition=ic[k], params=PD.extract_params(k), obs_slice=osl[k]) for k in us}
     else:
-        lw = jinns.loss.LossWeightsPDEDict(dyn_loss=W(cfg["w"]["dyn_loss"]), norm_loss=W(cfg["w"]["norm_loss"]), boundary_loss=W(cfg["w"]["boundary_loss"]),
-                                           observations=W(cfg["w"]["observations"]), initial_condition=W(cfg["w"]["initial_condition"]))
+        lw = jinns.loss.LossWeightsPDEDict(**WK(dyn_loss=cfg["w"]["dyn_loss"], norm_loss=cfg["w"]["norm_loss"], boundary_loss=cfg["w"]["boundary_loss"],
+                                                observations=cfg["w"]["observations"], initial_condition=cfg["w"]["initial_condition"]))
         kw = dict(norm_samples_dict={k: jnp.array(v) for k, v in cfg["norm"].items()}, norm_int_length_dict={k: 2.0 for k in us}, obs_slice_dict=osl)
         skw = {k: dict(norm_samples=jnp.array(cfg["norm"][k]), norm_int_length=2.0, obs_slice=osl[k]) for k in us}
         if kind == "nonstatio":
@@ -130,6 +135,8 @@ def case_term(cid, cfg, terms, sing):
             return f"(GScalar {cq(spec[1])})"
         if spec[0] == "none":
             return "GNone"
+        if spec[0] == "unset":                    # documented defaults: None for the ODE container, 1.0 for the PDE container
+            return "GNone" if kind == "ode" else f"(GScalar {cq(1.0)})"
         return f"(GDict {clist(sorted(spec[1].items(), key=lambda kv: idx[kv[0]]), lambda kv: f'({cnat(idx[kv[0]])}, {cq(kv[1])})')})"
     eqs = clist(cfg["ekeys"], lambda e: f"({cnat(ek[e])}, ({clist(cfg['ukeys'], lambda k: f'({cnat(uk[k])}, {cq(cfg['eqs'][e]['coef'][k])})')}, {cpoly(cfg['eqs'][e]['q'])}))")
     other = OTHER[kind]
